@@ -30,6 +30,9 @@ type UDPRound struct {
 	// delivered on the ending session or start the next one - and whatever they start must be closed
 	// like every other session when the engine stops
 	Race int `json:"race,omitempty"`
+	// Empty: the round's first datagram has no payload. It opens the session like any other (and the
+	// engine's UDP read timeout runs for it), whether or not it is handed to the data callback.
+	Empty bool `json:"empty,omitempty"`
 }
 
 // UDPLifeCase is a case of the UDP part of C03.
@@ -71,6 +74,9 @@ func genUDPLifeCase(r *simrt.Rand, tier string) *UDPLifeCase {
 			}
 			if j == n-1 && rd.End != "none" && r.Bool(0.4) {
 				rd.Race = r.Range(1, 3)
+			}
+			if rd.End != "openclose" && r.Bool(0.15) {
+				rd.Empty = true
 			}
 			rounds = append(rounds, rd)
 		}
@@ -255,14 +261,20 @@ func runUDPLife(t *testing.T, ci interface{}, trace bool) *common.Outcome {
 						}
 						continue
 					}
+					wantData := rd.Datagrams
 					for k := 0; k < rd.Datagrams; k++ {
+						if k == 0 && rd.Empty {
+							wantData-- // (delivery of an empty datagram to the data callback is not judged here)
+							w.K.PeerSendTo(r.sock, []byte{}, w.KAddr)
+							continue
+						}
 						w.K.PeerSendTo(r.sock, []byte{byte('a' + j)}, w.KAddr)
 					}
 					// the round's session
 					// (all of them: a datagram of this round that arrives after the session was ended
 					// would, rightly, start the next session, or be delivered while the close is
 					// under way - neither is this check's subject)
-					if !simrt.WaitStuck("udp-session", 50*time.Millisecond, func() bool { return len(r.sessions) > j && r.sessions[j].data >= rd.Datagrams }) {
+					if !simrt.WaitStuck("udp-session", 50*time.Millisecond, func() bool { return len(r.sessions) > j && r.sessions[j].data >= wantData }) {
 						if len(r.sessions) <= j {
 							w.Fail("C03", "udp-session-not-opened", class, "remote %d, round %d: %d datagrams were sent after the previous session had its close notification, but no new session was opened (sessions so far: %d)", i, j, rd.Datagrams, len(r.sessions))
 						}
